@@ -29,9 +29,17 @@ class C19(Prop):
         for order in (["bridge", "api"], ["api", "bridge"], ["device", "bridge", "api"], ["api", "device", "schedule", "bridge"], ["schedule", "bridge"],
                       ["bridge", "STIR", "api"], ["STIR"]):
             out.append({"state": "ON", "order": order, "fresh": True})
+        # what the clients do with the port tables: the port each API class dials, over histories of accepted / refused connects
+        hists = [["ok"], ["refused", "ok"], ["refused", "refused", "ok"], ["ok", "disc", "ok"], ["ok", "disc", "refused", "ok"],
+                 ["refused", "disc", "ok"], ["ok", "op", "disc", "refused", "refused", "ok", "op"], ["refused", "ok", "disc", "ok"]]
+        for api in (1, 2):
+            for h in hists:
+                out.append({"kind": "dial", "api": api, "hist": h})
         return out
 
     def execute(self, scn):
+        if scn.get("kind") == "dial":
+            return [self._dial(scn)]
         import json
         import subprocess
         import sys
@@ -45,6 +53,47 @@ class C19(Prop):
         else:
             cat = dump(scn["state"], scn["order"])
         return [{"ev": "Catalog", "state": scn["state"], "order": scn["order"], "c": cat}]
+
+
+    @staticmethod
+    def _dial(scn):
+        import asyncio
+        from .. import vnet
+        net = vnet.VNet()
+        loop = vnet.VLoop(net)
+        host = "10.9.8.7"
+
+        def answer(conn, data):
+            conn.loop.call_soon(conn.feed, bytes(range(60)))
+        net.on_write_hook = answer
+
+        async def main():
+            from aioswitcher.api import SwitcherType1Api, SwitcherType2Api
+            api = (SwitcherType1Api if scn["api"] == 1 else SwitcherType2Api)(host, "ab1234", "18")
+            attempts = 0
+            for step in scn["hist"]:
+                for port in (9957, 10000):           # both control ports answer alike: the client's own choice is what is observed
+                    net.listen(host, port, step != "refused")
+                try:
+                    if step in ("ok", "refused"):
+                        attempts += 1
+                        await api.connect()
+                    elif step == "disc":
+                        await api.disconnect()
+                    elif step == "op":
+                        await (api.get_state() if scn["api"] == 1 else api.get_shutter_state())
+                except Exception:  # noqa: BLE001 - refusals and whatever an operation makes of the canned reply: only the dialled ports are judged
+                    pass
+            try:
+                await api.disconnect()
+            except Exception:  # noqa: BLE001
+                pass
+            return attempts
+        try:
+            attempts = loop.run_until_complete(main())
+        finally:
+            loop.close()
+        return {"ev": "Dial", "api": scn["api"], "hist": scn["hist"], "attempts": attempts, "ports": [p for _, p in net.dials]}
 
 
 PROP = C19()
